@@ -235,12 +235,11 @@ impl<'cmd> Parser<'cmd> {
                             // revisit the current group of short flags skipping the subcommand.
                             keep_state = self
                                 .flag_subcmd_at
-                                .map(|at| {
+                                .map(|_at| {
+                                    // The number of flags to skip during state recovery was recorded
+                                    // when the flag subcommand was found.
                                     raw_args
                                         .seek(&mut args_cursor, clap_lex::SeekFrom::Current(-1));
-                                    // Since we are now saving the current state, the number of flags to skip during state recovery should
-                                    // be the current index (`cur_idx`) minus ONE UNIT TO THE LEFT of the starting position.
-                                    self.flag_subcmd_skip = self.cur_idx.get() - at + 1;
                                 })
                                 .is_some();
 
@@ -928,7 +927,10 @@ impl<'cmd> Parser<'cmd> {
             Ok(()),
             "tracking of `flag_subcmd_skip` is off for `{short_arg:?}`"
         );
+        // Flags of this group read so far, including the ones skipped above
+        let mut consumed = skip;
         while let Some(c) = short_arg.next_flag() {
+            consumed += 1;
             let c = match c {
                 Ok(c) => c,
                 Err(rest) => {
@@ -1002,6 +1004,10 @@ impl<'cmd> Parser<'cmd> {
                 let done_short_args = short_arg.is_empty();
                 if done_short_args {
                     self.flag_subcmd_at = None;
+                } else {
+                    // The subcommand revisits this group and skips what was read, whether or
+                    // not the flag subcommand was the first flag of the group
+                    self.flag_subcmd_skip = consumed;
                 }
                 Ok(ParseResult::FlagSubCommand(name))
             } else {
